@@ -80,15 +80,19 @@ class TempfileMktempTransformer(
         return any(same_line(pos, location) for location in result.locations)
 
     def report_and_change(
-        self, node: cst.Call, name: cst.Name, leading_lines: tuple, assignment=True
+        self,
+        node: cst.Call,
+        name: cst.Name | list[cst.Name],
+        leading_lines: tuple,
+        assignment=True,
     ) -> cst.FlattenSentinel:
         self.mktemp_calls.clear()
         self.report_change(node)
         self.add_needed_import(self._module_name)
         self.remove_unused_import(node)
-        with_block = (
-            f"{name.value} = tf.name" if assignment else f"{name.value}(tf.name)"
-        )
+        names = name if isinstance(name, list) else [name]
+        target = " = ".join(n.value for n in names)
+        with_block = f"{target} = tf.name" if assignment else f"{target}(tf.name)"
         new_stmt = dedent(
             f"""\
         with tempfile.NamedTemporaryFile({self._make_args(node)}) as tf:
@@ -117,7 +121,7 @@ class TempfileMktempTransformer(
 
     def _is_assigned_to_mktemp(
         self, bsstmt: cst.BaseSmallStatement
-    ) -> Optional[tuple[cst.Name, cst.Call]]:
+    ) -> Optional[tuple[cst.Name | list[cst.Name], cst.Call]]:
         match bsstmt:
             case cst.Assign(value=value, targets=targets):
                 maybe_value = self._is_mktemp_call(value)  # type: ignore
@@ -129,8 +133,8 @@ class TempfileMktempTransformer(
                         targets,  # type: ignore
                     )
                 ):
-                    # # Todo: handle multiple potential targets
-                    return (targets[0].target, maybe_value)
+                    # every target of a chained assignment (`a = b = mktemp()`) gets the name
+                    return ([t.target for t in targets], maybe_value)
             case cst.AnnAssign(target=target, value=value):
                 maybe_value = self._is_mktemp_call(value)  # type: ignore
                 if maybe_value and isinstance(target, cst.Name):  # type: ignore
